@@ -92,12 +92,31 @@ class Leaf:
     node: ast.AST | None = None
 
 
+@dataclass
+class LoopRecord:
+    """One `for` loop met on a path: the loop as read (fused with a private generator, if it iterates
+    one), the function that holds it, the state at its entry, and every path of one iteration."""
+    node: ast.For          # as analysed (possibly fused)
+    orig: ast.For          # the statement in the source tree
+    fn: FuncInfo
+    pre_env: Env
+    facts: tuple[Fact, ...]
+    iter_term: str
+    assigned: list[str]
+    leaves: list[Leaf]
+
+
+SEQ_WRAPPERS = ("sorted", "list", "tuple", "set", "frozenset")
+
 CallHook = Callable[["SymExec", str, str | None, list[Poly], dict[str, Poly], ast.Call], "Poly | None"]
 
 
 class SymExec:
     def __init__(self, prog: Program, fn: FuncInfo, call_hook: CallHook | None = None,
-                 max_depth: int = 3, max_leaves: int = 400) -> None:
+                 max_depth: int = 3, max_leaves: int = 400, item_atom: str = "ITEM") -> None:
+        self.item_atom = item_atom
+        self.loops: list[LoopRecord] = []
+        self._in_loop = False
         self.prog = prog
         self.fn_stack = [fn]
         self.call_hook = call_hook
@@ -502,6 +521,48 @@ class SymExec:
         finally:
             self.fn_stack.append(h)
 
+    def _loop(self, s: ast.For, env: Env, facts: tuple[Fact, ...], nxt: Any, ctl: Any) -> None:
+        """A `for` loop is summarised, not unrolled: every path of ONE iteration is executed from a state
+        in which each name the body assigns holds an unknown carried value `name@0`; after the loop those
+        names hold `name@loop`.  The record is kept in `self.loops` for the caller's rules.  Works in
+        whichever function (the analysed one or a helper executed in line) the loop lives."""
+        fn = self.fn_stack[-1]
+        if self._in_loop:
+            raise AnalysisError(f"{fn.qual}: nested loop")
+        loop = s
+        for _ in range(3):  # a loop over a private generator is read together with the generator's loop
+            fused = fuse_generator_loop(self, loop)
+            if fused is loop:
+                break
+            loop = fused
+        if s.orelse or loop.orelse or not isinstance(loop.target, ast.Name):
+            raise AnalysisError(f"{fn.qual}: unsupported loop shape `{u(s).splitlines()[0][:60]}`")
+        assigned = sorted({n.id for b in loop.body for n in ast.walk(b)
+                           if isinstance(n, ast.Name) and isinstance(n.ctx, (ast.Store, ast.Del))})
+        if loop.target.id in assigned:
+            raise AnalysisError(f"{fn.qual}: loop variable rebound in the loop")
+        it: ast.AST = loop.iter
+        while isinstance(it, ast.Call) and u(it.func) in SEQ_WRAPPERS and len(it.args) == 1 and not it.keywords:
+            it = it.args[0]
+        iter_term = repr(self.ev(it, env))
+        env0 = dict(env)
+        for v in assigned:
+            env0[v] = Poly.atom(f"{v}@0")
+        env0[loop.target.id] = Poly.atom(self.item_atom)
+        leaves: list[Leaf] = []
+        self._in_loop = True
+        try:
+            self._block(self.prep(list(loop.body)), env0, (),
+                        lambda e2, f2: self._leaf(leaves, Leaf("fall", f2, e2)),
+                        lambda kind, val, e2, f2, node: self._leaf(leaves, Leaf(kind, f2, e2, val, node)))
+        finally:
+            self._in_loop = False
+        self.loops.append(LoopRecord(loop, s, fn, dict(env), facts, iter_term, assigned, leaves))
+        env1 = dict(env)
+        for v in assigned + [loop.target.id]:
+            env1[v] = Poly.atom(f"{v}@loop")
+        nxt(env1, facts)
+
     def _stmt(self, s: ast.stmt, env: Env, facts: tuple[Fact, ...], nxt: Any, ctl: Any) -> None:  # noqa: C901
         if isinstance(s, ast.Pass):
             return nxt(env, facts)
@@ -539,6 +600,8 @@ class SymExec:
             return ctl("break", None, env, facts, s)
         if isinstance(s, ast.Raise):
             return ctl("raise", None, env, facts, s)
+        if isinstance(s, ast.For):
+            return self._loop(s, env, facts, nxt, ctl)
         raise AnalysisError(f"{self.fn_stack[-1].qual}: unsupported statement `{u(s)[:60]}` "
                             f"({type(s).__name__})")
 
